@@ -87,12 +87,56 @@ func goSide(w *lib.Writer, env *envT) {
 			local t = vh_register("hostmod")
 			return tostring(log[1]), tostring(SHADOW.hostmod == t), tostring(rawget(_G, "hostmod") == nil), tostring(require("hostmod") == t), tostring(hostmod == t)`,
 			wantValues("hostmod", "true", "true", "true", "true")},
+		// wave 5: re-bound fields of the package table. require, module and RegisterModule use the
+		// registry's _LOADED (ll_require / luaL_findtable(REGISTRY, "_LOADED")): assigning a new table to
+		// package.loaded neither empties the cache nor redirects registrations
+		{"package.loaded = {} does not drop the cache: cached value identical, loader not run again, module()/RegisterModule still register where require looks", `
+			local require, package, tostring, next, module, vh_register = require, package, tostring, next, module, vh_register
+			local n = 0
+			package.preload.m = function() n = n + 1; return {n} end
+			local m = require("m")
+			local real = package.loaded
+			package.loaded = {}
+			local same = require("m") == m
+			package.preload.mm = function(name) module(name) end
+			local mm = require("mm")
+			local t = vh_register("hostmod")
+			return tostring(same), tostring(n), tostring(mm == real.mm), tostring(require("mm") == mm), tostring(real.hostmod == t),
+				tostring(require("hostmod") == t), tostring(next(package.loaded) == nil)`,
+			wantValues("true", "1", "true", "true", "true", "true", "true")},
+		// the preload searcher and PreloadModule read the field package.preload at every call
+		// (loadlib.c loader_preload: "'package.preload' must be a table")
+		{"package.preload = 42: require of an unloaded module and PreloadModule raise, cached modules are still returned; a table put back works again", `
+			package.preload.a = function() return "A" end
+			local a = require("a")
+			local keep = package.preload
+			package.preload = 42
+			local ok1, e1 = pcall(require, "zz")
+			local ok2, e2 = pcall(vh_preload, "b", "B")
+			local cached = require("a")
+			package.preload = keep
+			vh_preload("b", "B")
+			return tostring(ok1), tostring(tostring(e1):find("preload", 1, true) ~= nil), tostring(ok2), tostring(tostring(e2):find("preload", 1, true) ~= nil), cached, require("b")`,
+			wantValues("false", "true", "false", "true", "A", "B")},
+		{"a host loader registered (from a coroutine) after package.preload was replaced wins over the file on package.path; the orphaned table is not consulted", `
+			local old = package.preload
+			package.preload = {}
+			coroutine.wrap(vh_preload)("vhm0", "from-host")
+			old.other = function() return "orphan" end
+			local ok = pcall(require, "other")
+			return require("vhm0"), tostring(ok), tostring(rawget(old, "vhm0") == nil)`,
+			wantValues("from-host", "false", "true")},
 	}
 	for _, sc := range scs {
 		L := lua.NewState()
 		L.SetGlobal("vh_register", L.NewFunction(func(L *lua.LState) int {
 			L.Push(L.RegisterModule(L.CheckString(1), map[string]lua.LGFunction{"f": func(L *lua.LState) int { return 0 }}))
 			return 1
+		}))
+		L.SetGlobal("vh_preload", L.NewFunction(func(L *lua.LState) int {
+			v := L.CheckString(2)
+			L.PreloadModule(L.CheckString(1), func(L *lua.LState) int { L.Push(lua.LString(v)); return 1 })
+			return 0
 		}))
 		L.SetField(L.GetGlobal("package"), "path", lua.LString(path))
 		var res []lua.LValue
@@ -128,5 +172,54 @@ func goSide(w *lib.Writer, env *envT) {
 		}
 		L.Close()
 	}
+	w.Meta.GoOnlyChecked++
+	if what := twoStates(); what != "" {
+		what = "two Lua states in one process are independent (nothing of require is process-wide): " + what
+		id := w.Add(lib.Case{Coq: "CHist [] []", Input: map[string]string{"go_side_scenario": "two states"}, Observed: what, Class: "gofail"})
+		w.GoFail(id, what)
+	}
 	env.resetFiles()
+}
+
+// While state A is in the middle of loading its module "m" (A's sentinel is in A's package.loaded),
+// state B loads ITS module "m": no loop error, B's own loader runs once, each state caches its own
+// value, and a module loaded only in A is unknown in B.
+func twoStates() (what string) {
+	defer func() {
+		if r := recover(); r != nil {
+			what = fmt.Sprintf("Go panic: %v", r)
+			if len(what) > 200 {
+				what = what[:200]
+			}
+		}
+	}()
+	A, B := lua.NewState(), lua.NewState()
+	defer A.Close()
+	defer B.Close()
+	nB, inner := 0, ""
+	B.PreloadModule("m", func(L *lua.LState) int { nB++; L.Push(lua.LString("B-m")); return 1 })
+	A.PreloadModule("onlyA", func(L *lua.LState) int { L.Push(lua.LString("A-only")); return 1 })
+	A.PreloadModule("m", func(L *lua.LState) int {
+		if err := B.DoString(`vh_r = require("m") .. "/" .. tostring(pcall(require, "onlyA"))`); err != nil {
+			inner = "B raised while A was loading: " + firstLine(err.Error())
+		}
+		L.Push(lua.LString("A-m"))
+		return 1
+	})
+	if err := A.DoString(`vh_r = require("onlyA") .. "/" .. require("m") .. "/" .. require("m")`); err != nil {
+		return "A raised: " + firstLine(err.Error())
+	}
+	if inner != "" {
+		return inner
+	}
+	if err := B.DoString(`vh_r = vh_r .. "/" .. require("m")`); err != nil {
+		return "B raised: " + firstLine(err.Error())
+	}
+	if got := A.GetGlobal("vh_r").String(); got != "A-only/A-m/A-m" {
+		return "state A got " + got
+	}
+	if got := B.GetGlobal("vh_r").String(); got != "B-m/false/B-m" || nB != 1 {
+		return fmt.Sprintf("state B got %s after %d loader runs", got, nB)
+	}
+	return ""
 }
